@@ -82,9 +82,21 @@ fn check(case: &str) -> Option<String> {
             let at = p.get(1)?.parse::<usize>().ok()?;
             match lexpr::from_reader(Failing { data: b"(a b c)", pos: 0, at }) {
                 Err(e) => { if e.classify() != Category::Io { return Some(format!("reader failing at offset {}: error category {:?}", at, e.classify())); }
-                            let k = io::Error::from(e).kind(); if k != io::ErrorKind::ConnectionReset { return Some(format!("reader failing with ConnectionReset at offset {}: io::Error::from(parse error) has kind {:?}, documented: the original error", at, k)); } None }
-                Ok(v) => Some(format!("reader failing at offset {} parsed as {}", at, v)),
+                            let k = io::Error::from(e).kind(); if k != io::ErrorKind::ConnectionReset { return Some(format!("reader failing with ConnectionReset at offset {}: io::Error::from(parse error) has kind {:?}, documented: the original error", at, k)); } }
+                Ok(v) => return Some(format!("reader failing at offset {} parsed as {}", at, v)),
             }
+            // the same through the serde companion crate's error type (it wraps the parse error), and its syntax / EOF kinds
+            #[cfg(feature = "with-serde")]
+            {
+                match serde_lexpr::from_reader::<Vec<String>>(Failing { data: b"(a b c)", pos: 0, at }) {
+                    Err(e) => { let k = io::Error::from(e).kind(); if k != io::ErrorKind::ConnectionReset { return Some(format!("serde_lexpr::from_reader failing with ConnectionReset at offset {}: io::Error::from(error) has kind {:?}, documented: the original error", at, k)); } }
+                    Ok(v) => return Some(format!("serde_lexpr::from_reader failing at offset {} read {:?}", at, v)),
+                }
+                for (text, want) in [("(1 2", io::ErrorKind::UnexpectedEof), ("(1 2))", io::ErrorKind::InvalidData), ("\"ab", io::ErrorKind::UnexpectedEof), ("#z", io::ErrorKind::InvalidData), ("(1 a)", io::ErrorKind::InvalidData)] {
+                    match serde_lexpr::from_str::<Vec<u32>>(text) { Err(e) => { let k = io::Error::from(e).kind(); if k != want { return Some(format!("serde_lexpr::from_str({:?}): io::Error::from(error) has kind {:?}, documented {:?}", text, k, want)); } }, Ok(v) => return Some(format!("serde_lexpr::from_str({:?}) = {:?}", text, v)) }
+                }
+            }
+            None
         }
         "loc" | "locx" => {
             let text = if p[0] == "locx" { crate::unhex(p.get(1)?) } else { garbage().get(p.get(1)?.parse::<usize>().ok()?)?.as_bytes().to_vec() };
